@@ -30,6 +30,8 @@ type Failure struct {
 	Kind   string   `json:"kind"`
 	Trace  []int32  `json:"trace"`
 	Log    []string `json:"log"`
+	Sys    bool     `json:"sys,omitempty"` // systematic schedule: Trace is a decision prefix under pre-emption bound Bound
+	Bound  int      `json:"bound,omitempty"`
 }
 
 type result struct {
@@ -42,7 +44,9 @@ type result struct {
 
 func mkSched(seed int64, r *rand.Rand, trace []int32, size int) *vs.Sched {
 	var s *vs.Sched
-	if trace != nil {
+	if vs.SysBound >= 0 {
+		s = vs.NewSystematic(trace, vs.SysBound, 0)
+	} else if trace != nil {
 		s = vs.NewReplay(trace)
 	} else {
 		s = vs.New(seed*7919 + 3)
@@ -56,6 +60,9 @@ func mkSched(seed int64, r *rand.Rand, trace []int32, size int) *vs.Sched {
 	case 2:
 		s.Strat = vs.RoundRobin
 	}
+	if vs.SysBound >= 0 {
+		s.Strat, s.Spurious = vs.Systematic, false
+	}
 	vs.S = s
 	return s
 }
@@ -64,8 +71,8 @@ func runSema(seed int64, trace []int32) *result {
 	r := rand.New(rand.NewSource(seed*1000003 + 5))
 	res := &result{kind: "sema"}
 	nsem := 1 + r.Intn(2)
-	nth := 2 + r.Intn(4)
-	nops := 1 + r.Intn(4)
+	nth := vs.Cap(2+r.Intn(4), 3)
+	nops := vs.Cap(1+r.Intn(4), 2)
 	lockMode := r.Intn(3) == 0 // semaphore with initial count 1 used as a mutex
 	sems := make([]uint32, nsem)
 	init := make([]uint32, nsem)
@@ -178,10 +185,10 @@ func runSema(seed int64, trace []int32) *result {
 func runNotify(seed int64, trace []int32) *result {
 	r := rand.New(rand.NewSource(seed*1000003 + 9))
 	res := &result{kind: "notify"}
-	nw := 1 + r.Intn(4)     // waiters
-	rounds := 1 + r.Intn(2) // waits per waiter
-	nn := 1 + r.Intn(2)     // notifier threads
-	mode := r.Intn(3)       // 0 one, 1 all, 2 mixed
+	nw := vs.Cap(1+r.Intn(4), 2) // waiters
+	rounds := 1 + r.Intn(2)      // waits per waiter
+	nn := 1 + r.Intn(2)          // notifier threads
+	mode := r.Intn(3)            // 0 one, 1 all, 2 mixed
 	ncalls := r.Intn(nw*rounds + 2)
 	var l rtl.NotifyList
 	if r.Intn(4) == 0 {
@@ -262,17 +269,22 @@ func runNotify(seed int64, trace []int32) *result {
 }
 
 type Report struct {
-	Runs        int            `json:"runs"`
-	Distinct    int            `json:"distinct_schedules"`
-	Ops         int            `json:"operations"`
-	Steps       int            `json:"scheduler_steps"`
-	StepLimit   int            `json:"step_limit_inconclusive"`
-	Stuck       int            `json:"quiescent_allowed"`
-	ByKind      map[string]int `json:"runs_by_kind"`
-	Sites       map[string]int `json:"yield_sites"`
-	ClassCounts map[string]int `json:"failure_class_counts"`
-	Failures    []Failure      `json:"failures"`
-	Sample      []string       `json:"sample_log"`
+	Runs         int            `json:"runs"`
+	Distinct     int            `json:"distinct_schedules"`
+	Ops          int            `json:"operations"`
+	Steps        int            `json:"scheduler_steps"`
+	StepLimit    int            `json:"step_limit_inconclusive"`
+	Stuck        int            `json:"quiescent_allowed"`
+	ByKind       map[string]int `json:"runs_by_kind"`
+	Sites        map[string]int `json:"yield_sites"`
+	ClassCounts  map[string]int `json:"failure_class_counts"`
+	Failures     []Failure      `json:"failures"`
+	Sample       []string       `json:"sample_log"`
+	SysWorkloads int            `json:"sys_workloads"`
+	SysComplete  int            `json:"sys_workloads_enumerated_completely"`
+	SysTruncated int            `json:"sys_workloads_truncated"`
+	SysDiverged  int            `json:"sys_diverged_runs"`
+	SysMaxSched  int            `json:"sys_max_schedules_of_one_workload"`
 }
 
 func main() {
@@ -280,6 +292,8 @@ func main() {
 	n := flag.Int64("n", 1000, "number of runs")
 	out := flag.String("out", "", "report file")
 	replay := flag.String("replay", "", "failure file to replay")
+	sysb := flag.Int("sys", -1, "systematic leg: enumerate EVERY schedule with at most this many pre-emptions for each (small) workload")
+	maxruns := flag.Int("maxruns", 20000, "systematic leg: cap on schedules per workload")
 	flag.Parse()
 	if *replay != "" {
 		b, err := os.ReadFile(*replay)
@@ -289,6 +303,9 @@ func main() {
 		}
 		var f Failure
 		json.Unmarshal(b, &f)
+		if f.Sys {
+			vs.SysBound = f.Bound
+		}
 		var res *result
 		if f.Kind == "sema" {
 			res = runSema(f.Seed, f.Trace)
@@ -312,15 +329,11 @@ func main() {
 		fmt.Println("REPLAY: recorded class not reproduced")
 		os.Exit(0)
 	}
+	vs.SysBound = *sysb
 	rep := Report{ByKind: map[string]int{}, Sites: map[string]int{}, ClassCounts: map[string]int{}}
 	seen := map[uint64]bool{}
-	for seed := *from; seed < *from+*n; seed++ {
-		var res *result
-		if seed%2 == 0 {
-			res = runSema(seed, nil)
-		} else {
-			res = runNotify(seed, nil)
-		}
+	var seed int64
+	account := func(res *result) {
 		rep.Runs++
 		rep.ByKind[res.kind]++
 		rep.Ops += res.ops
@@ -337,7 +350,7 @@ func main() {
 		}
 		if res.s.StepLim {
 			rep.StepLimit++
-			continue
+			return
 		}
 		if res.s.Stuck && len(res.fails) == 0 {
 			rep.Stuck++
@@ -355,8 +368,56 @@ func main() {
 			if rep.ClassCounts[f.Class] <= 3 {
 				f.Trace = res.s.Trace
 				f.Log = res.log
+				f.Sys, f.Bound = vs.SysBound >= 0, vs.SysBound
 				rep.Failures = append(rep.Failures, f)
 			}
+		}
+	}
+	for seed = *from; seed < *from+*n; seed++ {
+		one := func(tr []int32) *result {
+			if seed%2 == 0 {
+				return runSema(seed, tr)
+			}
+			return runNotify(seed, tr)
+		}
+		if vs.SysBound < 0 {
+			account(one(nil))
+			continue
+		}
+		rep.SysWorkloads++
+		runs := 0
+		full := vs.SysBound
+		// iterative bounding: every schedule with <= 1 pre-emption first (always completes), then the full bound up to the cap
+	bounds:
+		for _, b := range []int{1, full} {
+			if b > full || (b == full && full == 1 && runs > 0) {
+				continue
+			}
+			vs.SysBound = b
+			var prefix []int32
+			for {
+				res := one(prefix)
+				runs++
+				if res.s.Diverged {
+					rep.SysDiverged++
+				}
+				account(res)
+				prefix = res.s.NextPrefix()
+				if prefix == nil {
+					if b == full {
+						rep.SysComplete++
+					}
+					break
+				}
+				if runs >= *maxruns {
+					rep.SysTruncated++
+					break bounds
+				}
+			}
+		}
+		vs.SysBound = full
+		if runs > rep.SysMaxSched {
+			rep.SysMaxSched = runs
 		}
 	}
 	rep.Distinct = len(seen)
